@@ -118,10 +118,10 @@ Qed.
 Lemma new_sgroup_ok : forall c p ig t eng, existsb (fun g => covers g t eng) (rp_sgs p) = false -> 0 < rp_sgdur p ->
   MINNANO <= t < MAXNANO1 ->
   let g := new_sgroup true c p ig t eng in
-  aligned g /\ Forall (disjoint2 g) (rp_sgs p).
+  aligned_any g /\ Forall (disjoint2 g) (rp_sgs p).
 Proof.
-  intros c p ig t eng Hex Hd Ht g.
-  set (d := rp_sgdur p) in *. set (s := trunc t d). set (e := cell_end s d).
+  intros c p ig t eng Hex Hd Ht g. unfold new_sgroup, new_sg_end in g.
+  set (d := rp_sgdur p) in *. set (s := trunc t d) in *. set (e := cell_end s d) in *.
   set (s0 := if clampst c then Z.max s MINNANO else s).
   assert (Hs : s <= t) by (apply trunc_le; assumption).
   assert (Hs0 : s <= s0 <= t) by (unfold s0; destruct (clampst c); lia).
@@ -129,11 +129,11 @@ Proof.
   pose proof (clip_lo_ge (rp_sgs p) eng t s0) as L1. pose proof (clip_lo_le (rp_sgs p) eng t s0 (proj2 Hs0)) as L2.
   pose proof (clip_hi_le (rp_sgs p) eng t e) as U1. pose proof (clip_hi_gt (rp_sgs p) eng t e He) as U2.
   split.
-  - intros _. cbn [g new_sgroup sg_start sg_end sg_dur]. fold d s e s0. split; [lia|]. split; [exact Hd|].
+  - unfold aligned_any. cbn [g sg_start sg_end sg_dur]. fold s0. split; [lia|]. split; [exact Hd|].
     assert (E : trunc (clip_lo (rp_sgs p) eng t s0) d = s).
     { apply trunc_idem; [exact Hd | lia|]. pose proof (trunc_gt t d Hd). fold s in H. lia. }
     rewrite E. fold e. exact U1.
-  - apply Forall_forall. intros x Hx Hdg Hdx Hex'. cbn [g new_sgroup sg_start sg_end sg_eng sg_del] in *. fold d s e s0.
+  - apply Forall_forall. intros x Hx Hdg Hdx Hex'. cbn [g sg_start sg_end sg_eng sg_del] in *. fold s0.
     destruct (not_covered _ _ _ _ Hex Hx (eq_sym Hex') Hdx) as [A|A].
     + left. apply clip_hi_bound; auto.
     + right. apply clip_lo_bound; auto.
@@ -169,17 +169,18 @@ Proof.
 Qed.
 
 (* the index group chosen for a new shard group: present afterwards, with at least ptnum indexes *)
-Lemma ensure_ig_spec : forall c p t eng ig isnew, ensure_ig c p t eng = (ig, isnew) -> 0 <= ptnum c ->
+Lemma ensure_ig_spec : forall c p t e eng ig isnew, ensure_ig c p t e eng = (ig, isnew) -> 0 <= ptnum c ->
   ptnum c <= Z.of_nat (length (ig_indexes ig)) /\
-  (isnew = false -> In ig (rp_igs p)) /\
-  (isnew = true -> ig = new_igroup c p t eng).
+  (isnew = false -> In ig (rp_igs p) /\ e <= ig_end ig) /\
+  (isnew = true -> ig = new_igroup c p t e eng).
 Proof.
-  intros c p t eng ig isnew E Hn. unfold ensure_ig in E.
-  assert (N : Z.of_nat (length (ig_indexes (new_igroup c p t eng))) = ptnum c).
+  intros c p t e eng ig isnew E Hn. unfold ensure_ig in E.
+  assert (N : Z.of_nat (length (ig_indexes (new_igroup c p t e eng))) = ptnum c).
   { cbn [new_igroup ig_indexes]. rewrite map_length, length_zseq. lia. }
-  destruct (find_last (ig_match t eng) (rp_igs p)) as [g|] eqn:Ef.
+  destruct (find_last (ig_match t e eng) (rp_igs p)) as [g|] eqn:Ef.
   - destruct (Z.of_nat (length (ig_indexes g)) >=? ptnum c) eqn:El; inversion E; subst.
-    + split; [lia|]. split; [|discriminate]. intros _. unfold find_last in Ef. apply find_some in Ef. apply in_rev. tauto.
+    + split; [lia|]. split; [|discriminate]. intros _. unfold find_last in Ef. apply find_some in Ef.
+      destruct Ef as [Ef1 Ef2]. unfold ig_match in Ef2. split; [apply in_rev; exact Ef1 | lia].
     + split; [lia|]. split; [discriminate | reflexivity].
   - inversion E; subst. split; [lia|]. split; [discriminate | reflexivity].
 Qed.
@@ -195,11 +196,11 @@ Proof.
   destruct (get_pol c db rp) as [p|] eqn:Eg; [|exact H].
   destruct (existsb (fun g => covers g t eng) (rp_sgs p)) eqn:Ecov; [exact H|].
   destruct (rp_msts p) as [|m0 mr] eqn:Em; [exact H|].
-  destruct (ensure_ig c p t eng) as [ig isnew] eqn:Eig.
+  destruct (ensure_ig c p t (new_sg_end clip p t eng) eng) as [ig isnew] eqn:Eig.
   cbn [fst ok].
   pose proof (nonneg_get _ H) as NN.
   destruct (get_pol_spec _ _ _ _ Eg) as (Hfind & Hp & Edb & _). unfold find_pol in Hfind.
-  destruct (ensure_ig_spec _ _ _ _ _ _ Eig) as (Ilen & Iold & Inew); [lia|].
+  destruct (ensure_ig_spec _ _ _ _ _ _ _ Eig) as (Ilen & Iold & Inew); [lia|].
   destruct (Hnew p ig eq_refl Ecov) as [Gal Gdis].
   set (g := new_sgroup clip c p ig t eng) in *.
   set (n := Z.to_nat (ptnum c)).
@@ -278,13 +279,18 @@ Proof.
   - exact (wf_ptv _ H).
   - cbn [max_sg max_sh max_ig max_ix max_mst max_node ptnum c' set_sg_counters set_pols]. destruct isnew; repeat (constructor; [lia|]); constructor.
   - rewrite Epols. apply updf_Forall; [|exact (wf_dur _ H)]. intros x _ Q. destruct (Hkeys x) as (_ & _ & -> & _). exact Q.
+  - rewrite Epols. apply updf_Forall; [|exact (wf_nm _ H)]. intros x _ Q. unfold upd. destruct isnew; cbn; exact Q.
 Qed.
+
+Lemma aligned_any_aligned : forall g, aligned_any g -> aligned g.
+Proof. intros g A _. exact A. Qed.
 
 Lemma wf_create_sg : forall c db rp t eng, wf c -> MINNANO <= t < MAXNANO1 -> wf (fst (create_sg true c db rp t eng)).
 Proof.
   intros c db rp t eng H Ht. apply wf_create_sg_gen; [exact H|]. intros p ig Eg Ecov.
   destruct (get_pol_spec _ _ _ _ Eg) as (_ & Hp & _).
-  pose proof (wf_dur _ H) as DUR. rewrite Forall_forall in DUR. apply new_sgroup_ok; [exact Ecov | exact (DUR p Hp) | exact Ht].
+  pose proof (wf_dur _ H) as DUR. rewrite Forall_forall in DUR.
+  destruct (new_sgroup_ok c p ig t eng Ecov (DUR p Hp) Ht) as [A B]. split; [apply aligned_any_aligned; exact A | exact B].
 Qed.
 
 (* ---------------------------------------------------------------- today's creation, duration unchanged *)
@@ -304,10 +310,10 @@ Definition full_cells (p : policy) (eng : Z) : Prop :=
 
 Lemma new_sgroup_ok_current : forall c p ig t eng, existsb (fun g => covers g t eng) (rp_sgs p) = false -> 0 < rp_sgdur p ->
   MINNANO <= t < MAXNANO1 -> full_cells p eng ->
-  let g := new_sgroup false c p ig t eng in aligned g /\ Forall (disjoint2 g) (rp_sgs p).
+  let g := new_sgroup false c p ig t eng in aligned_any g /\ Forall (disjoint2 g) (rp_sgs p).
 Proof.
-  intros c p ig t eng Hex Hd Ht Hfull g.
-  set (d := rp_sgdur p) in *. set (s := trunc t d). set (e := cell_end s d).
+  intros c p ig t eng Hex Hd Ht Hfull g. unfold new_sgroup, new_sg_end in g.
+  set (d := rp_sgdur p) in *. set (s := trunc t d) in *. set (e := cell_end s d) in *.
   set (s0 := if clampst c then Z.max s MINNANO else s).
   assert (Hs : s <= t) by (apply trunc_le; assumption).
   assert (Hs0 : s <= s0 <= t) by (unfold s0; destruct (clampst c); lia).
@@ -316,8 +322,8 @@ Proof.
   assert (Es : trunc s d = s) by (apply trunc_idem; [exact Hd | apply Z.le_refl | lia]).
   assert (Es0 : trunc s0 d = s) by (apply trunc_idem; [exact Hd | lia | lia]).
   split.
-  - intros _. cbn [g new_sgroup sg_start sg_end sg_dur]. fold d s e s0. split; [lia|]. split; [exact Hd|]. rewrite Es0. fold e. lia.
-  - apply Forall_forall. intros x Hx Hdg Hdx Hex'. cbn [g new_sgroup sg_start sg_end sg_eng sg_del] in *. fold d s e s0.
+  - unfold aligned_any. cbn [g sg_start sg_end sg_dur]. fold s0. split; [lia|]. split; [exact Hd|]. rewrite Es0. fold e. lia.
+  - apply Forall_forall. intros x Hx Hdg Hdx Hex'. cbn [g sg_start sg_end sg_eng sg_del] in *. fold s0.
     destruct (Hfull x Hx Hdx (eq_sym Hex')) as [F1 F2]. fold d in F1, F2.
     destruct (not_covered _ _ _ _ Hex Hx (eq_sym Hex') Hdx) as [A|A].
     + destruct (cells_apart s (sg_start x) d Hd (eq_sym Es) F1) as [E|[E|E]]; [lia | left; unfold e, cell_end; lia | lia].
@@ -334,5 +340,6 @@ Proof.
   intros c db rp t eng H Ht Hfull. apply wf_create_sg_gen; [exact H|]. intros p ig Eg Ecov.
   destruct (get_pol_spec _ _ _ _ Eg) as (_ & Hp & _).
   pose proof (wf_dur _ H) as DUR. rewrite Forall_forall in DUR.
-  apply new_sgroup_ok_current; [exact Ecov | exact (DUR p Hp) | exact Ht | apply Hfull; exact Eg].
+  destruct (new_sgroup_ok_current c p ig t eng Ecov (DUR p Hp) Ht (Hfull p Eg)) as [A B].
+  split; [apply aligned_any_aligned; exact A | exact B].
 Qed.
